@@ -178,6 +178,12 @@ fn image_cases(tier: Tier) -> Vec<ImgCase> {
     v
 }
 
+
+/// arcs and sectors only (the family whose trigonometry changes with the `fixed_point` feature)
+fn angle_shapes(pos: P2) -> Vec<Shape> {
+    shape_catalogue(false, pos).into_iter().filter(|s| matches!(s, Shape::Arc { .. } | Shape::Sector { .. })).collect()
+}
+
 fn run_part(run: &mut Run) {
     let tier = run.tier;
     let t = tier.is_thorough();
@@ -193,6 +199,9 @@ fn run_part(run: &mut Run) {
             }, check_prim);
             run.sweep_vec("images", "images 4 raw widths x sizes x sub-image areas (inside, overlapping, outside, zero-sized, nested) x Image::new/with_center", || image_cases(tier), check_img);
         }
+        "angles-fixed-point" => {
+            run.sweep_vec("arcs-sectors-fixed-point", "arcs and sectors of the catalogue x S(W) in the fixed_point build", || product(&angle_shapes((-2, -3)), &styles(w)), check_prim);
+        }
         "text" => {
             run.sweep_vec("text", "built-in fonts (quick: 3 sizes x 14 subsets fully + all 292 fonts with one string; thorough: all 292 fully) x strings x {text,background,underline,strikethrough} x 4 baselines x 3 alignments x 4 line heights",
                 || text_cases(tier), check_text);
@@ -207,7 +216,7 @@ fn main() {
         level: "exploration",
         rule: "every drawable of the listed catalogue once; non-trivial = at least one pixel drawn; every recorded pixel (unbounded recording target, both draw paths and pixels()) must satisfy bounding_box().contains(p); a completely transparent style must leave the map empty",
         assumptions: &["bounded to the listed catalogue; all 292 built-in fonts are covered (in quick with a reduced string/decoration product)", "only containment, not tightness, is asserted"],
-        parts: |_| vec![PartSpec::new("shapes", "verif"), PartSpec::new("text", "verif")],
+        parts: |_| vec![PartSpec::new("shapes", "verif"), PartSpec::new("text", "verif"), PartSpec::new("angles-fixed-point", "verif_fp")],
         run_part,
         required_classes: |_| vec!["rect", "circle", "ellipse", "rrect", "triangle", "line", "arc", "sector", "polyline", "transparent", "thick-stroke", "outside-stroke", "image", "sub-image", "sub-sub-image", "text", "text-transparent", "text-underline", "text-strikethrough", "text-background", "text-3-lines", "text-aligned"],
         crash_is_verdict: false,
